@@ -349,12 +349,20 @@ def section_handover(c, model_chk, model):
             ri = ev.index(rec[0])
             down = [e for e in ev[:ri] if e.kind == 'store' and e.field == 'line' and sym.render(e.val) == 'cfg->line']
             up = [e for e in ev[ri:] if e.kind == 'store' and e.field == 'line' and sym.root_of(e.addr) == ('p', 'cfg')]
+            named = [e for e in ev[:ri] if e.kind == 'store' and e.field == 'filename' and sym.root_of(e.addr)[0] == 'call'
+                     and e.val[0] == 'call' and e.val[1] == 'strdup']
+            has_name_path = any(tr2.kind == 'next' and [e for e in tr2.events if e.kind == 'store' and e.field == 'filename' and e.val[0] == 'call']
+                                for tr2 in model.transitions(s, LB) if tr2.calls('cfg_parse_internal'))
+            if not has_name_path:
+                chk.fail('R6.5', 'section-filename', c.where(rec[0].ins),
+                         'the section context is not given the current file name before its body is parsed: a section created at initialisation reports errors without a file name')
+                return
             if not down:
                 chk.fail('R6.5', 'section-line-down', c.where(rec[0].ins), 'the section context does not inherit the current line before its body is parsed')
             elif not up:
                 chk.fail('R6.5', 'section-line-up', c.where(rec[0].ins), 'the parent does not take over the line number after the section body was parsed')
             else:
-                chk.ok('R6.5', 'section body (state %d)' % s, 'line handed to the section before the recursive parse and taken back after it')
+                chk.ok('R6.5', 'section body (state %d)' % s, 'file name and line handed to the section before the recursive parse; line taken back after it')
             return
     if not found:
         raise report.Broken('no recursive section parse found in the extracted table')
